@@ -26,18 +26,24 @@ Record Defects := {
        not executed yet.  Repaired: no snapshot while lastExec is above the executed height. *)
   d_solo_commit10 : bool;
     (* solo calls CommitTransactions only for heights divisible by 10 *)
-  d_snapin_lost : bool
+  d_snapin_lost : bool;
     (* a snapshot received from the leader is durable before its blocks are executed, and a restart
        does not fetch the missing blocks again.  Repaired: run() calls recoverFromSnapshot when the
        newest snapshot's height is above lastExec. *)
+  d_report_early : bool
+    (* the glue between executor and ordering: the executor announces a block (ExecutedEvent ->
+       feedhub -> Order.ReportState) before the ledger has made it durable.  Not the case in the code
+       as it is ([processExecuteEvent] posts the event after [PersistBlockData]); a flag so that the
+       assumption "Report h only after Durable h" is explicit and its failure has a witness. *)
 }.
-Definition mkD (r s o i : bool) : Defects :=
-  {| d_restart_height_only := r; d_snap_unexecuted := s; d_solo_commit10 := o; d_snapin_lost := i |}.
-Definition cfg_fixed : Defects := mkD false false false false.
-Definition only_restart : Defects := mkD true false false false.
-Definition only_snap : Defects := mkD false true false false.
-Definition only_solo10 : Defects := mkD false false true false.
-Definition only_snapin : Defects := mkD false false false true.
+Definition mkD (r s o i e : bool) : Defects :=
+  {| d_restart_height_only := r; d_snap_unexecuted := s; d_solo_commit10 := o; d_snapin_lost := i; d_report_early := e |}.
+Definition cfg_fixed : Defects := mkD false false false false false.
+Definition only_restart : Defects := mkD true false false false false.
+Definition only_snap : Defects := mkD false true false false false.
+Definition only_solo10 : Defects := mkD false false true false false.
+Definition only_snapin : Defects := mkD false false false true false.
+Definition only_report_early : Defects := mkD false false false false true.
 
 (** * The log *)
 Definition blk := (N * list N)%type.            (* height, tx ids : what a CommitEvent carries *)
@@ -215,8 +221,16 @@ Definition init_sys (d : Defects) (c : rcfg) : rsys :=
   let dk := {| persisted := 0; dsnap := 0; dsnapH := 0; stored := 0 |} in
   {| mem := restart_mem d dk x; disk := dk; ex := x; avail := 0 |}.
 
+(** The executor side has two events per block: the block is *handed over* (it enters [queue]: the
+    executor starts working on the head of the queue) and it becomes *durable* ([OExec]: [chain] := its
+    height).  [ReportState h] may reach the node only after block h is durable; with [d_report_early]
+    also for the block the executor is working on (head of the queue). *)
+Definition report_allowed (d : Defects) (x : rexec) (h : N) : bool :=
+  (h <=? chain x)
+  || (d_report_early d && match queue x with [] => false | _ => h =? chain x + 1 end).
+
 (** [None] = the op is outside what the environment can do (etcd-raft never hands out a gap,
-    nothing is committed before it is stored, only executed heights are reported) *)
+    nothing is committed before it is stored, only durable heights are reported) *)
 Definition rstep (d : Defects) (c : rcfg) (lg : rlog) (s : rsys) (op : rop) : option (rsys * rout) :=
   match op with
   | ONop => Some (s, no_out)
@@ -251,7 +265,7 @@ Definition rstep (d : Defects) (c : rcfg) (lg : rlog) (s : rsys) (op : rop) : op
           Some ({| mem := mem s; disk := disk s; ex := {| chain := h; chainIdx := i; queue := q |}; avail := avail s |}, no_out)
       end
   | OReport h =>
-      if h <=? chain (ex s) then
+      if report_allowed d (ex s) h then
         match alookup N.eqb h (bai (mem s)) with
         | None => Some (s, no_out)
         | Some i =>
@@ -510,6 +524,21 @@ Fixpoint leader_seq_b (id pl : N) (ops : list rop) (tr : list robs) : bool :=
   | _, _ => true
   end.
 
+(** the glue assumption as a predicate on a trace: every ReportState(h) that reaches the node is for a
+    height that is durable at that moment (the shadow's executed height) *)
+Fixpoint reports_durable (sh : shadow) (ops : list rop) (tr : list robs) : Prop :=
+  match ops, tr with
+  | op :: ops', o :: tr' =>
+      match op with OReport h => h <= sh_chain sh | _ => True end /\ reports_durable (shadow_step sh op o) ops' tr'
+  | _, _ => True
+  end.
+Fixpoint reports_durable_b (sh : shadow) (ops : list rop) (tr : list robs) : bool :=
+  match ops, tr with
+  | op :: ops', o :: tr' =>
+      match op with OReport h => h <=? sh_chain sh | _ => true end && reports_durable_b (shadow_step sh op o) ops' tr'
+  | _, _ => true
+  end.
+
 (** the whole property on a raft trace, as one boolean (the order is the order of the verdict detail) *)
 Definition raft_prop_b (init : N) (id : N) (lg : rlog) (ops : list rop) (tr : list robs) : N :=
   if negb (contiguous_b (shadow_init init) ops tr) then 1
@@ -520,6 +549,9 @@ Definition raft_prop_b (init : N) (id : N) (lg : rlog) (ops : list rop) (tr : li
   else if negb (above_executed_b (shadow_init init) ops tr) then 6
   else if negb (leader_seq_b id 0 ops tr) then 7
   else 0.
+(** the glue assumption is evaluated before everything else: code 8 *)
+Definition raft_prop_all_b (init : N) (id : N) (lg : rlog) (ops : list rop) (tr : list robs) : N :=
+  if negb (reports_durable_b (shadow_init init) ops tr) then 8 else raft_prop_b init id lg ops tr.
 
 (** ** Judge *)
 (** [b] is the implementation's observation; an empty state vector means "events only" *)
@@ -535,7 +567,7 @@ Definition obs_eqb (a b : robs) : bool :=
 Definition subsets (d : Defects) : list Defects :=
   let o := d_solo_commit10 d in
   let opts (b : bool) := if b then [false; true] else [false] in
-  let all := flat_map (fun r => flat_map (fun sn => map (fun i => mkD r sn o i) (opts (d_snapin_lost d)))
+  let all := flat_map (fun r => flat_map (fun sn => map (fun i => mkD r sn o i (d_report_early d)) (opts (d_snapin_lost d)))
                                          (opts (d_snap_unexecuted d))) (opts (d_restart_height_only d)) in
   (* fewest flags first *)
   let size (x : Defects) : N := (if d_restart_height_only x then 1 else 0) + (if d_snap_unexecuted x then 1 else 0)
@@ -566,7 +598,7 @@ Definition judge_raft (cs : raft_case) : verdict :=
   match tr with
   | [] => V_domain 0
   | o0 :: tr' =>
-      let p := raft_prop_b (c_init c) (c_id c) lg ops tr' in
+      let p := raft_prop_all_b (c_init c) (c_id c) lg ops tr' in
       let res := map (fun dd => (dd, run_match dd c lg ops o0 tr')) (subsets d) in
       let matching := find (fun r => match snd r with Some None => true | _ => false end) res in
       if negb (p =? 0) then
@@ -726,7 +758,7 @@ Definition judge_solo (cs : solo_case) : verdict :=
         match try1 d with
         | None => V_ok
         | Some i => if d_solo_commit10 d
-                    then match try1 (mkD (d_restart_height_only d) (d_snap_unexecuted d) false (d_snapin_lost d)) with
+                    then match try1 (mkD (d_restart_height_only d) (d_snap_unexecuted d) false (d_snapin_lost d) (d_report_early d)) with
                          | None => V_ok
                          | Some j => V_mismatch (N.max i j)
                          end
